@@ -446,6 +446,9 @@ def run_property(modname, tier, seed, only=None, jobs=16):
             errors.append("%s[%s]: %s" % (r["sub"], r["shard"], r["error"]))
         if r.get("violation"):
             violations.append(r["violation"])
+            evaluations += 1
+            samples.append({"sub": r["sub"], "case": brief(r["violation"]["case"]), "classes": ["VIOLATION"],
+                            "nontrivial": True})
         ps["evaluations"] += r.get("evaluations", 0)
         ps["wall_s"] = round(ps["wall_s"] + r.get("wall_s", 0.0), 2)
         evaluations += r.get("evaluations", 0)
